@@ -324,6 +324,11 @@ Definition run_introspect (e : sexp) : sexp :=
                                    qf_input_value_deprecation (q_query q)])]
           end
       | _, _, _ => sErr "request" end
+  | L [A "constants"] =>
+      (* the marker character of get_header_value, found by probing the model itself *)
+      L [A (match header_value [("X", "v")] "$X" with inr "v" => "$" | _ => "?" end);
+         L (map sB [qf_descriptions full_query; qf_specified_by_url full_query; qf_directive_is_repeatable full_query;
+                    qf_schema_description full_query; qf_input_value_deprecation full_query])]
   | L [A "history"; A url; hs; v; ens] =>
       match dList dPair hs, dB v, dList (dList dPair) ens with
       | Some hs, Some v, Some ens =>
